@@ -546,13 +546,16 @@ func (s *session) oracleArrival(before, after *snap, b *mblock, cls string) {
 	}
 	s.e.run.Eval("arrival:"+b.id()+fmt.Sprint(len(s.ops)), true)
 	if cls == "cached" {
-		// the block itself sits in the errored-blocks cache: it was the *arriving* block when a descendant failed
-		s.e.run.Count("valid-block-refused-from-errored-cache")
-		if s.e.prop == "C07" {
-			s.fail("valid-child-of-best", fmt.Sprintf("valid block %s (%s) extending the best block is refused from the errored-blocks cache (it was the arriving block when a later block failed)",
-				b.name, b.id()), knownC07Prefix)
+		if cb := chain.VerifC05ErrBlock(s.n.cs, types.ToBlockID(b.hash)); cb != nil && proto.Equal(cb, b.blk) {
+			// the block itself sits in the errored-blocks cache: it was the *arriving* block when a block resolved under it failed
+			s.e.run.Count("valid-block-refused-from-errored-cache")
+			if s.e.prop == "C07" {
+				s.fail("valid-child-of-best", fmt.Sprintf("valid block %s (%s) extending the best block is refused from the errored-blocks cache (it was the arriving block when a later block failed)",
+					b.name, b.id()), knownC07Prefix)
+			}
+			return
 		}
-		return
+		// refused because of a *different* block cached under the same identifier (DESIGN §5 lead 5)
 	}
 	if after.onMain[string(b.hash)] == nil {
 		s.fail("valid-child-of-best", fmt.Sprintf("valid block %s (%s) extending the best block %s/%d was offered (answer %s) but is not on the main chain afterwards",
